@@ -408,6 +408,52 @@ theorem side_on_hline (s : Scene) (i : Nat) (v : Rect) (hv : s.rects[i]? = some 
     mem_hVerts_of_mem _ _ _ _ (hvs _ (by simp)), hb, hf⟩
 
 
+/-- For pairwise separated routing boxes (the scenes the C05 property quantifies over) the sweep never
+    stops early at a box side: each of the four sides of every box lies, with both corner vertices, on a line
+    of the model that extends on either side to the nearest box side in the scan line (`findLimits`:
+    `minLimit` = the largest right side ≤ the box's left side among the boxes meeting that line, `maxLimit`
+    symmetric), or to infinity.  (Horizontal sides; the vertical sides are the same statement about the
+    transposed scene, whose lines are `s.lines.vs`.) -/
+theorem side_on_hline_separated (s : Scene) (i : Nat) (v : Rect) (hv : s.rects[i]? = some v)
+    (hsep : ∀ (j k : Nat) (a b : Rect), j ≠ k → s.rects[j]? = some a → s.rects[k]? = some b → Sep a b)
+    (hw : v.x0 ≤ v.x1) (hh : v.y0 ≤ v.y1) (y : Rat) (hy : y = v.y0 ∨ y = v.y1) :
+    ∃ p ∈ s.lines.hs, p.1.p = y ∧ (⟨v.x0, .node⟩ : LV) ∈ p.2 ∧ (⟨v.x1, .node⟩ : LV) ∈ p.2 ∧
+      p.1.b ≤ (findLimits s.lo s.hi (activeAt (s.rects.eraseIdx i) y) v y).minLimit ∧
+      (findLimits s.lo s.hi (activeAt (s.rects.eraseIdx i) y) v y).maxLimit ≤ p.1.f :=
+  side_on_hline s i v hv y hy (separated_normal s.lo s.hi s.rects i v hv hsep hw hh y hy)
+
+/-- **A path along a line.**  Take a line of the model (horizontal shown), its breakpoints in set order
+    split into position groups, and any run `mid` of consecutive groups each of which carries a dummy vertex
+    (every breakpoint position does, except a connector end point inside a shape or without room): the
+    chosen dummy vertices `ns`, in order, form a path of graph edges along the line. -/
+theorem line_nodes_chain_h (s : Scene) (h : Seg) (vs : List LV) (hl : (h, vs) ∈ s.lines.hs)
+    (pre mid post : List (List BP)) (hg : groupsOf (toBPs (dirsX s.fixDirs) vs) = pre ++ mid ++ post)
+    (ns : List BP) (hp : Picks mid ns) :
+    ∀ e ∈ pairs ns, ((⟨e.1.t, h.p, e.1.k⟩, ⟨e.2.t, h.p, e.2.k⟩) : GV × GV) ∈ s.graph := by
+  intro e he
+  unfold Scene.graph Lines.edges
+  rw [lines_conns]
+  apply List.mem_append_left
+  refine List.mem_flatMap.mpr ⟨(h, vs), hl, ?_⟩
+  refine List.mem_map.mpr ⟨e, ?_, rfl⟩
+  unfold lineEdges
+  rw [hg]
+  exact groupEdges_node_chain [] pre mid post ns hp e he
+
+theorem line_nodes_chain_v (s : Scene) (v : Seg) (vs : List LV) (hl : (v, vs) ∈ s.lines.vs)
+    (pre mid post : List (List BP)) (hg : groupsOf (toBPs (dirsY s.fixDirs) vs) = pre ++ mid ++ post)
+    (ns : List BP) (hp : Picks mid ns) :
+    ∀ e ∈ pairs ns, ((⟨v.p, e.1.t, e.1.k⟩, ⟨v.p, e.2.t, e.2.k⟩) : GV × GV) ∈ s.graph := by
+  intro e he
+  unfold Scene.graph Lines.edges
+  rw [lines_conns]
+  apply List.mem_append_right
+  refine List.mem_flatMap.mpr ⟨(v, vs), hl, ?_⟩
+  refine List.mem_map.mpr ⟨e, ?_, rfl⟩
+  unfold lineEdges
+  rw [hg]
+  exact groupEdges_node_chain [] pre mid post ns hp e he
+
 /-! ### non-vacuity: a closed scene (one routing box, one connector with a restricted source) -/
 
 /-- box [2,4]×[2,4]; source (0,3) may only be left to the Right, target (6,3) in all directions -/
